@@ -31,6 +31,7 @@ from fedjax.core.typing import PyTree
 
 import jax
 import jax.numpy as jnp
+import numpy as np
 
 # Shared input that is passed to the client init that is shared across all
 # clients. For example, this could be the shared global model parameters that
@@ -263,19 +264,29 @@ def _blockify(clients: Iterable[Tuple[ClientId, Iterable[BatchExample],
         client_input=[client_input for _, _, client_input in block])
 
 
-def _stack_for_pmap(xs):
-  """Stacks a list of same-structured pytrees along a new leading device axis.
+def _pmap_sharding(devices):
+  """Sharding that splits the leading axis over `devices` (one slice each)."""
+  mesh = jax.sharding.Mesh(np.asarray(devices), ('clients',))
+  return jax.sharding.NamedSharding(mesh,
+                                    jax.sharding.PartitionSpec('clients'))
 
-  Replacement for the removed ``jax.device_put_sharded``: ``jax.pmap`` shards the
-  leading axis of its inputs over the devices itself.
+
+def _stack_for_pmap(xs, devices):
+  """Stacks a list of same-structured pytrees, one per device.
+
+  Replacement for the removed ``jax.device_put_sharded``.
   """
-  return jax.tree_util.tree_map(lambda *leaves: jnp.stack(leaves), *xs)
-
-
-def _replicate_for_pmap(x, n):
-  """Replacement for the removed ``jax.device_put_replicated``."""
+  sharding = _pmap_sharding(devices)
   return jax.tree_util.tree_map(
-      lambda leaf: jnp.stack([jnp.asarray(leaf)] * n), x)
+      lambda *leaves: jax.device_put(jnp.stack(leaves), sharding), *xs)
+
+
+def _replicate_for_pmap(x, devices):
+  """Replacement for the removed ``jax.device_put_replicated``."""
+  sharding = _pmap_sharding(devices)
+  return jax.tree_util.tree_map(
+      lambda leaf: jax.device_put(
+          jnp.stack([jnp.asarray(leaf)] * len(devices)), sharding), x)
 
 
 class ForEachClientPmapBackend(ForEachClientBackend):
@@ -323,21 +334,21 @@ class ForEachClientPmapBackend(ForEachClientBackend):
     p_client_final = jax.pmap(client_final, donate_argnums=1, devices=devices)
 
     def run_block(p_shared_input, block):
-      p_client_input = _stack_for_pmap(block.client_input)
+      p_client_input = _stack_for_pmap(block.client_input, devices)
       p_state = p_client_init(p_shared_input, p_client_input)
       p_step_results = []
       for p_batch, p_mask in block.masked_batches:
         p_state, p_step_result = p_client_step(
             p_state,
-            _stack_for_pmap(p_batch),
-            _stack_for_pmap(p_mask),
+            _stack_for_pmap(p_batch, devices),
+            _stack_for_pmap(p_mask, devices),
         )
         p_step_results.append(p_step_result)
       p_client_output = p_client_final(p_shared_input, p_state)
       return p_client_output, p_step_results
 
     def run(shared_input, clients):
-      p_shared_input = _replicate_for_pmap(shared_input, block_size)
+      p_shared_input = _replicate_for_pmap(shared_input, devices)
       for block in _blockify(clients, block_size):
         p_client_output, p_step_results = run_block(p_shared_input, block)
         # Split outputs and release buffers as we go.
